@@ -5,6 +5,17 @@ E1 digest:  product of tx shapes x input index x hash type x spent-output kind x
             digest obtained through Tx.sig_hash (dispatch) and through the direct methods == reference.
 E2 history: explicit-state search over interleavings of digest queries and edits on ONE Tx object; in every
             state every query must equal the reference evaluated on the current content.
+E1 scripts: script-code / spent-scriptPubKey / output-script / annex alphabets across the compact-size boundaries and
+            with non-canonical (raw-preserved) encodings, for every carrier of a script code.
+E1 fields:  extreme values of every 32/64-bit field x ways of building the object (constructor, Tx.parse of both wire
+            forms, segwit flag, network).
+E1 routes:  the digest that is actually signed (get_sig_*, sign_p2tr_keypath) and actually checked (check_sig_*,
+            verify_input through the signature opcodes) is the reference digest: signatures are made with the
+            reference curve code over the reference digest; includes m-of-n CHECKMULTISIG with different hash-type
+            bytes per signature and taproot script paths of a real two-leaf tree.
+E2 fetch-history: like `history`, but the spent outputs come from TxFetcher.cache (looked up by outpoint), the object is
+            built by Tx.parse, all queries go through the Tx.sig_hash dispatch, and the edits include outpoints,
+            adding/removing inputs, in-place edits of scriptSig / witness items and of a raw-preserved output script.
 """
 import itertools
 
@@ -20,6 +31,9 @@ MS = bytes([0x51]) + txref.push(PK1) + txref.push(PK2) + bytes([0x52, 0xAE])  # 
 TAPSCRIPT = txref.push(bytes(range(100, 132))) + b"\xac"
 XONLY = bytes(range(150, 182))
 LEGACY_HTS = [1, 2, 3, 0x81, 0x82, 0x83]
+# not "standard", but both algorithms define them without ambiguity (base type = hash_type & 0x1f is neither NONE nor
+# SINGLE, so all outputs are committed; 0x80 has ANYONECANPAY set; the four hash-type bytes are serialized as given)
+EXTRA_LEGACY_HTS = [0, 0x80]
 TAP_HTS = [0, 1, 2, 3, 0x81, 0x82, 0x83]
 AMOUNTS = [0, 1, 2**32, 2**63 - 1, 5000000000]
 KINDS = ["p2pkh", "p2sh-ms", "p2wpkh", "p2sh-p2wpkh", "p2wsh-ms", "p2sh-p2wsh-ms", "p2tr-key", "p2tr-script"]
@@ -163,7 +177,7 @@ def run_digest(case):
     res = Res()
     kind = case["kind"]
     shapes = [None]
-    hts = LEGACY_HTS
+    hts = LEGACY_HTS + EXTRA_LEGACY_HTS
     if kind == "p2tr-key":
         shapes, hts = TAP_KEY_SHAPES, TAP_HTS
     elif kind == "p2tr-script":
@@ -254,7 +268,12 @@ def apply_edit_lib(ltx, e):
     elif e == "locktime":
         ltx.locktime = Locktime(int(ltx.locktime) ^ 0x40)
     elif e == "in1.index":
-        ltx.tx_ins[1].prev_index ^= 1
+        # the statement takes the spent outputs as given: the output the new outpoint spends carries the same amount
+        # and scriptPubKey, so whatever the harness planted on the input is planted again for the new outpoint
+        ti = ltx.tx_ins[1]
+        planted = (ti._value, ti._script_pubkey)
+        ti.prev_index ^= 1
+        ti._value, ti._script_pubkey = planted
     elif e == "in0.value":
         ltx.tx_ins[0]._value ^= 0x1000
     elif e == "in0.annex":
@@ -379,8 +398,893 @@ def run_history_replay(case):
     return res
 
 
+# ------------------------------------------------------------------ E1 scripts: script-code / spk / annex alphabets
+H20B = bytes(range(31, 51))
+XONLY2 = bytes(range(60, 92))
+
+
+def long_script(n):
+    """exactly n bytes: 520-byte PUSHDATA2 pushes padded with OP_NOPs (few commands, so parsing stays cheap)"""
+    chunk = b"\x4d\x08\x02" + bytes(range(256)) * 2 + bytes(8)
+    out = chunk * (n // len(chunk))
+    return out + b"\x61" * (n - len(out))
+
+
+def script_alphabet():
+    """name -> (class, bytes). Classes name what is special about the encoding (they become the fingerprint)."""
+    pd = lambda d: [txref.push(d), b"\x4c" + bytes([len(d)]) + d, b"\x4d" + len(d).to_bytes(2, "little") + d, b"\x4e" + len(d).to_bytes(4, "little") + d]
+    a = {}
+    a["pk-direct-push"] = ("canonical", pd(PK1)[0] + b"\xac")
+    a["pk-pushdata1"] = ("noncanonical-push", pd(PK1)[1] + b"\xac")
+    a["pk-pushdata2"] = ("noncanonical-push", pd(PK1)[2] + b"\xac")
+    a["pk-pushdata4"] = ("noncanonical-push", pd(PK1)[3] + b"\xac")
+    a["ms-mixed-pushdata"] = ("noncanonical-push", b"\x51" + pd(PK1)[1] + pd(PK2)[2] + b"\x52\xae")
+    a["pushdata1-empty"] = ("noncanonical-push", b"\x4c\x00\x51")
+    a["push-01"] = ("noncanonical-push", b"\x01\x01\x51")
+    a["trunc-direct-push"] = ("truncated-push", b"\x51\x21" + PK1[:10])
+    a["trunc-pushdata1"] = ("truncated-push", b"\x51\x4c")
+    a["trunc-pushdata2"] = ("truncated-push", b"\x51\x4d\x05")
+    a["push-521"] = ("oversize-push", b"\x4d\x09\x02" + bytes(521) + b"\x75\x51")
+    a["op0"] = ("canonical", b"\x00\x51")
+    a["empty"] = ("empty", b"")
+    a["ms15"] = ("len>=253", b"\x5f" + b"".join(txref.push(bytes([2]) + bytes([k]) * 32) for k in range(15)) + b"\x5f\xae")
+    a["len252"] = ("len<253", b"\x61" * 252)
+    a["len253"] = ("len>=253", b"\x61" * 253)
+    a["len65535"] = ("len>=253", long_script(65535))
+    a["len65536"] = ("len>=65536", long_script(65536))
+    a["opsuccess"] = ("canonical", b"\x50\x51")
+    a["reserved-ff"] = ("canonical", b"\xff\x51")
+    a["p2pkh"] = ("canonical", b"\x76\xa9\x14" + H20 + b"\x88\xac")
+    return a
+
+
+ANNEXES = {"none": None, "1": b"\x50", "4": ANNEX, "252": b"\x50" + bytes(251), "253": b"\x50" + bytes(252), "65536": b"\x50" + bytes(65535)}
+CARRIERS = ["p2sh", "p2wsh", "p2sh-p2wsh", "bare", "tapscript"]
+ODD_SPKS = {
+    "empty": b"",
+    "op_return": b"\x6a",
+    "pushdata1-h20": b"\x4c\x14" + H20,
+    "p2wpkh-pushdata1": b"\x00\x4c\x14" + H20,
+    "p2tr-pushdata1": b"\x51\x4c\x20" + XONLY,
+    "p2sh-pushdata1": b"\xa9\x4c\x14" + H20 + b"\x87",
+    "len252": b"\x61" * 252,
+    "len253": b"\x61" * 253,
+    "len65536": None,  # long_script(65536), filled in below
+    "trunc-push": b"\x51\x21" + bytes(5),
+}
+ODD_SPKS["len65536"] = long_script(65536)
+ALL_KIND_SHAPES = [(k, None) for k in KINDS[:6]] + [("p2tr-key", s) for s in TAP_KEY_SHAPES] + [("p2tr-script", s) for s in TAP_SCRIPT_SHAPES]
+
+
+def gen_scripts(tier, seed):
+    cases = []
+    names = list(script_alphabet())
+    for name in names:
+        for carrier in CARRIERS:
+            annexes = ["none"] if carrier != "tapscript" else (["none", "1", "253"] if tier == "quick" else list(ANNEXES))
+            for annex in annexes:
+                cases.append({"dim": "script", "script": name, "carrier": carrier, "annex": annex})
+    for spk in ODD_SPKS:
+        for kind, shape in ALL_KIND_SHAPES:
+            cases.append({"dim": "spent-spk", "spk": spk, "kind": kind, "shape": shape})
+    for kind, shape in ALL_KIND_SHAPES:
+        cases.append({"dim": "output-script", "kind": kind, "shape": shape})
+        for annex in ("1", "252", "253", "65536"):
+            if kind.startswith("p2tr") and shape and "annex" in shape:
+                cases.append({"dim": "annex", "annex": annex, "kind": kind, "shape": shape})
+    return cases
+
+
+def _cmp(res, fp, case, got, exp, key, what):
+    if got != exp:
+        res.violation(fp, {"engine": case["_engine"], "case": {k: v for k, v in case.items() if k != "_engine"}}, got, exp, what)
+    else:
+        res.ok("digest==ref" + ("(undefined->refused)" if exp is None else ""), nontrivial=key)
+
+
+def run_scripts(case):
+    from buidl.script import RedeemScript, WitnessScript
+
+    res = Res()
+    case = dict(case, _engine="scripts")
+    dim = case["dim"]
+    if dim == "script":
+        cls, sc = script_alphabet()[case["script"]]
+        carrier = case["carrier"]
+        if carrier == "p2sh" and not 0 < len(sc) <= 520:
+            res.skip("redeem script that cannot be pushed (empty or > 520 bytes)")
+            return res
+        annex = ANNEXES[case["annex"]]
+        for idx in (0, 1):
+            tx, spent = make_abstract(2, 2, idx, "p2pkh", None, 1 + idx)
+            amt = spent[idx][0]
+            direct = None
+            if carrier == "p2sh":
+                tx["ins"][idx].update(script=b"\x00" + txref.push(sc), witness=[])
+                spent[idx] = (amt, b"\xa9\x14" + txref.h160(sc) + b"\x87")
+                ref = lambda ht: txref.sighash_legacy(tx, idx, sc, ht)
+                direct = lambda l, ht: l.sig_hash_legacy(idx, RedeemScript.convert(sc), ht)
+                hts = LEGACY_HTS
+            elif carrier == "bare":
+                tx["ins"][idx].update(script=b"", witness=[])
+                spent[idx] = (amt, sc)
+                ref = lambda ht: txref.sighash_legacy(tx, idx, sc, ht)
+                direct = lambda l, ht: l.sig_hash_legacy(idx, None, ht)
+                hts = LEGACY_HTS
+            elif carrier == "p2wsh":
+                tx["ins"][idx].update(script=b"", witness=[b"", b"\x30\x02", sc])
+                spent[idx] = (amt, b"\x00\x20" + txref.sha256(sc))
+                ref = lambda ht: txref.sighash_bip143(tx, idx, sc, amt, ht)
+                direct = lambda l, ht: l.sig_hash_bip143(idx, witness_script=WitnessScript.convert(sc), hash_type=ht)
+                hts = LEGACY_HTS
+            elif carrier == "p2sh-p2wsh":
+                redeem = b"\x00\x20" + txref.sha256(sc)
+                tx["ins"][idx].update(script=txref.push(redeem), witness=[b"", sc])
+                spent[idx] = (amt, b"\xa9\x14" + txref.h160(redeem) + b"\x87")
+                ref = lambda ht: txref.sighash_bip143(tx, idx, sc, amt, ht)
+                direct = lambda l, ht: l.sig_hash_bip143(idx, redeem_script=RedeemScript.convert(redeem), witness_script=WitnessScript.convert(sc), hash_type=ht)
+                hts = LEGACY_HTS
+            else:
+                tx["ins"][idx].update(script=b"", witness=[SIG64, sc, CB] + ([annex] if annex else []))
+                spent[idx] = (amt, b"\x51\x20" + XONLY)
+                ref = lambda ht: txref.sighash_bip341(tx, idx, spent, ht, annex=annex, leaf_hash=txref.tapleaf_hash(sc, 0xC0))
+                direct = lambda l, ht: l.sig_hash_bip341(idx, ext_flag=1, hash_type=ht)
+                hts = TAP_HTS
+            for ht in hts:
+                exp = ref(ht)
+                ltx = build_lib(tx, spent)
+                got = {"sig_hash": norm(attempt(ltx.sig_hash, idx, ht)), "direct": norm(attempt(direct, ltx, ht))}
+                for route, val in got.items():
+                    fp = f"C05/scripts/script-code/{carrier}/{cls}" + (f"/annex-len-{case['annex']}" if annex and case["annex"] != "4" else "")
+                    _cmp(res, fp, case, val, exp, (case["script"], carrier, case["annex"], idx, ht, route), f"{route} (input {idx}, hash type {ht:#x}) != reference digest for script code '{case['script']}' carried as {carrier}")
+        return res
+    kind, shape = case["kind"], case["shape"]
+    hts = TAP_HTS if kind.startswith("p2tr") else LEGACY_HTS
+    if dim == "spent-spk":
+        # ANOTHER input spends an output with an odd scriptPubKey (BIP341 commits to every spent scriptPubKey)
+        tx, spent = make_abstract(3, 3, 1, kind, shape, len(case["spk"]) % 4)
+        spent[0] = (spent[0][0], ODD_SPKS[case["spk"]])
+        tx["ins"][0].update(script=b"", witness=[])
+        fp = f"C05/scripts/spent-spk-of-other-input/{case['spk']}"
+        idx = 1
+    elif dim == "output-script":
+        tx, spent = make_abstract(2, 3, 1, kind, shape, 1)
+        tx["outs"][0]["script"] = b"\x6a\x4d\x00\x01" + bytes(256)
+        tx["outs"][1]["script"] = long_script(65536)
+        tx["outs"][2]["script"] = b"\x4c\x01\x07"
+        fp = "C05/scripts/output-script/long-or-noncanonical"
+        idx = 1
+    else:
+        tx, spent = make_abstract(2, 2, 1, kind, shape, 2)
+        assert tx["ins"][1]["witness"][-1] == ANNEX
+        tx["ins"][1]["witness"][-1] = ANNEXES[case["annex"]]
+        fp = f"C05/scripts/annex-len-{case['annex']}"
+        idx = 1
+    for ht in hts:
+        exp = ref_digest_tx(tx, spent, idx, kind, ht)
+        ltx = build_lib(tx, spent)
+        for route, val in lib_digests(ltx, idx, kind, shape, ht).items():
+            _cmp(res, fp + f"/{algo_of(kind)}", case, val, exp, (repr(sorted(case.items())), ht, route), f"{route} (hash type {ht:#x}) != reference digest")
+    return res
+
+
+def algo_of(kind):
+    return "legacy" if kind in ("p2pkh", "p2sh-ms") else ("bip341" if kind.startswith("p2tr") else "bip143")
+
+
+def ref_digest_tx(tx, spent, idx, kind, ht):
+    """like ref_digest, but the taproot witness (annex, script, control block) is read from the abstract tx"""
+    if not kind.startswith("p2tr"):
+        return ref_digest(tx, spent, idx, kind, None, ht)
+    w = list(tx["ins"][idx]["witness"])
+    annex = None
+    if len(w) >= 2 and w[-1] and w[-1][0] == 0x50:
+        annex = w.pop()
+    if kind == "p2tr-key":
+        return txref.sighash_bip341(tx, idx, spent, ht, annex=annex)
+    return txref.sighash_bip341(tx, idx, spent, ht, annex=annex, leaf_hash=txref.tapleaf_hash(w[-2], w[-1][0] & 0xFE))
+
+
+# ------------------------------------------------------------------ E1 fields: scalar extremes x object builders
+FIELD_VALUES = {
+    "version": [0, 0x7FFFFFFF, 0x80000000, 0xFFFFFFFF],
+    "locktime": [499999999, 500000000, 0x80000000, 0xFFFFFFFF],
+    "sequence": [0x80000000, 0x00400001, 0xFFFFFFFD, 0x7FFFFFFF],
+    "prev_index": [256, 0x7FFFFFFF, 0x80000000, 0xFFFFFFFF],
+    "spent_amount": [2**63 - 1, 2**62, 2**32 - 1, 21 * 10**14],
+    "out_amount": [2**63 - 1, 2**32, 21 * 10**14, 0],
+}
+BUILDERS = ["ctor/mainnet", "ctor-segwit-false/testnet", "parse-segwit/mainnet", "parse-segwit/testnet", "parse-segwit/signet", "parse-legacy/mainnet"]
+
+
+def field_settings():
+    out = [{"name": f"{f}={v:#x}", "field": f, "set": {f: v}} for f, vs in FIELD_VALUES.items() for v in vs]
+    for k in range(4):
+        out.append({"name": f"all-extreme-{k}", "field": "all", "set": {f: vs[k] for f, vs in FIELD_VALUES.items()}})
+    out.append({"name": "plain", "field": "none", "set": {}})
+    return out
+
+
+def gen_fields(tier, seed):
+    return [{"kind": k, "shape": s, "setting": i} for (k, s) in ALL_KIND_SHAPES for i in range(len(field_settings()))]
+
+
+def build_lib_via(builder, tx, spent):
+    from io import BytesIO
+    from buidl.script import ScriptPubKey
+    from buidl.tx import Tx
+    from buidl.witness import Witness
+
+    how, net = builder.split("/")
+    if how == "ctor":
+        ltx = build_lib(tx, spent)
+        ltx.network = net
+        return ltx
+    if how == "ctor-segwit-false":
+        ltx = build_lib(tx, spent)
+        ltx.network, ltx.segwit = net, False
+        return ltx
+    raw = txref.ser_tx(dict(tx, segwit=(how == "parse-segwit")))
+    ltx = Tx.parse(BytesIO(raw), network=net)
+    for ti, inp, (amt, spk) in zip(ltx.tx_ins, tx["ins"], spent):
+        ti._value = amt
+        ti._script_pubkey = ScriptPubKey.parse(BytesIO(txref.varbytes(spk)))
+        if how == "parse-legacy":
+            ti.witness = Witness(list(inp["witness"]))  # the legacy wire form has no witness: attached afterwards
+    return ltx
+
+
+def run_fields(case):
+    res = Res()
+    case = dict(case, _engine="fields")
+    kind, shape = case["kind"], case["shape"]
+    st = field_settings()[case["setting"]]
+    nin, nout, idx = [(2, 2, 0), (2, 2, 1), (3, 1, 2)][case["setting"] % 3]
+    tx, spent = make_abstract(nin, nout, idx, kind, shape, case["setting"] % 4)
+    s = st["set"]
+    tx["version"] = s.get("version", tx["version"])
+    tx["locktime"] = s.get("locktime", tx["locktime"])
+    for i in tx["ins"]:
+        i["seq"] = s.get("sequence", i["seq"])
+        i["index"] = s.get("prev_index", i["index"])
+    if "spent_amount" in s:
+        spent = [(s["spent_amount"], spk) for _, spk in spent]
+    for o in tx["outs"]:
+        o["amount"] = s.get("out_amount", o["amount"])
+    hts = TAP_HTS if kind.startswith("p2tr") else LEGACY_HTS
+    for ht in hts:
+        exp = ref_digest(tx, spent, idx, kind, shape, ht)
+        base_bad = False
+        for builder in BUILDERS:
+            ltx = attempt(build_lib_via, builder, tx, spent)
+            got = lib_digests(ltx, idx, kind, shape, ht) if not isinstance(ltx, Rejected) else {"build": None}
+            for route, val in got.items():
+                if builder == BUILDERS[0]:
+                    fp = f"C05/fields/{st['field']}/{algo_of(kind)}"
+                    base_bad = base_bad or val != exp
+                elif base_bad:
+                    continue  # already reported for the plain constructor
+                else:
+                    fp = f"C05/fields/builder/{builder.split('/')[0]}/{algo_of(kind)}"
+                _cmp(res, fp, case, val, exp, (kind, shape, st["name"], ht, builder, route), f"{route} on an object built by {builder} with {st['name']} (hash type {ht:#x}) != reference digest")
+    return res
+
+
+# ------------------------------------------------------------------ E1 routes: what is signed / checked is the reference digest
+def route_keys(seed):
+    """three secrets (seed-dependent filler), their compressed SECs and x-only keys, all from the reference curve code"""
+    from mc.core import filler_int
+
+    C = ec.SECP
+    ds = [filler_int(seed, "c05-route-key", i, 1, C.n - 1) for i in range(3)]
+    pts = [C.mulg(d) for d in ds]
+    return ds, [C.sec(P) for P in pts], [ec.b32(P[0]) for P in pts]
+
+
+def tap_internal(seed, parity):
+    """an internal secret whose output key for the two-leaf tree of route_tree has the requested parity"""
+    from mc.core import filler_int
+
+    C = ec.SECP
+    i = 0
+    while True:
+        d = filler_int(seed, "c05-route-internal", i, 1, C.n - 1)
+        x = C.mulg(d)[0]
+        t = C.taproot_tweak(x, route_tree(seed)["root"])
+        if t is not None and t[1] == parity:
+            return d, x, t
+        i += 1
+
+
+def route_tree(seed):
+    _, _, xs = route_keys(seed)
+    leaf_a = txref.push(xs[0]) + b"\xac"  # <k0> CHECKSIG
+    leaf_b = txref.push(xs[0]) + b"\xac" + txref.push(xs[1]) + b"\xba" + b"\x52\x87"  # <k0> CHECKSIG <k1> CHECKSIGADD 2 EQUAL
+    ha, hb = txref.tapleaf_hash(leaf_a), txref.tapleaf_hash(leaf_b)
+    root = txref.tagged("TapBranch", min(ha, hb) + max(ha, hb))
+    return {"a": leaf_a, "b": leaf_b, "ha": ha, "hb": hb, "root": root}
+
+
+ROUTE_SINGLE_KINDS = ["p2pkh", "p2sh-ms", "p2wpkh", "p2sh-p2wpkh", "p2wsh-ms", "p2sh-p2wsh-ms"]
+MS_CARRIERS = ["p2sh", "p2wsh", "p2sh-p2wsh"]
+
+
+def route_shapes(tier):
+    # (nin, nout, idx, variant); the last two have no output with the index of the input (SINGLE rules)
+    q = [(2, 2, 1, 1), (2, 1, 1, 2)]
+    return q if tier == "quick" else q + [(1, 1, 0, 0), (3, 3, 1, 3), (2, 0, 0, 3), (4, 4, 3, 0)]
+
+
+def gen_routes(tier, seed):
+    cases = []
+    for sh in route_shapes(tier):
+        for kind in ROUTE_SINGLE_KINDS:
+            for ht in LEGACY_HTS:
+                cases.append({"r": "single", "kind": kind, "shape": list(sh), "ht": ht, "seed": seed})
+            cases.append({"r": "get_sig", "kind": kind, "shape": list(sh), "seed": seed})
+        for ht in TAP_HTS:
+            cases.append({"r": "tap-key", "shape": list(sh), "ht": ht, "seed": seed})
+            for leaf in ("a", "b"):
+                for parity in (0, 1):
+                    for annex in (False, True):
+                        if tier == "quick" and sh != route_shapes(tier)[0] and (parity, annex) != (1, True):
+                            continue
+                        cases.append({"r": "tap-script", "leaf": leaf, "parity": parity, "annex": annex, "shape": list(sh), "ht": ht, "seed": seed})
+    ms_shapes = route_shapes(tier)[:1] if tier == "quick" else [route_shapes(tier)[i] for i in (0, 1, 4)]
+    for sh in ms_shapes:
+        for carrier in MS_CARRIERS:
+            for mn in ([(2, 2)] if tier == "quick" else [(2, 2), (2, 3), (3, 3)]):
+                for ha in LEGACY_HTS:
+                    for hb in LEGACY_HTS:
+                        cases.append({"r": "multisig-mixed", "carrier": carrier, "m": mn[0], "n": mn[1], "hts": [ha, hb], "shape": list(sh), "seed": seed})
+    for c in cases:
+        c["tier"] = tier
+    return cases
+
+
+def _ecdsa(d, digest, ht):
+    r, s = ec.SECP.ecdsa_sign(d, int.from_bytes(digest, "big"))
+    return ec.der_sig(r, s) + bytes([ht])
+
+
+def _schnorr(d, digest, ht):
+    return ec.SECP.schnorr_sign(d, digest, b"\x00" * 32) + (bytes([ht]) if ht else b"")
+
+
+def _truth(v):
+    """verify_input / check_sig verdict: anything but True (False, None, exception) is a refusal"""
+    return v is True
+
+
+def route_single_setup(kind, shape, seed):
+    """-> tx, spent, idx, script_code, ref(ht), place(ltx, [sigs]) for the kinds signed by ONE key (multisig: 1-of-2)"""
+    nin, nout, idx, variant = shape
+    ds, secs, _ = route_keys(seed)
+    h20 = txref.h160(secs[0])
+    p2pkh = b"\x76\xa9\x14" + h20 + b"\x88\xac"
+    ms = b"\x51" + txref.push(secs[0]) + txref.push(secs[1]) + b"\x52\xae"
+    tx, spent = make_abstract(nin, nout, idx, "p2pkh", None, variant)
+    amt = spent[idx][0]
+    if kind == "p2pkh":
+        spk, sc = p2pkh, p2pkh
+    elif kind == "p2sh-ms":
+        spk, sc = b"\xa9\x14" + txref.h160(ms) + b"\x87", ms
+    elif kind == "p2wpkh":
+        spk, sc = b"\x00\x14" + h20, p2pkh
+    elif kind == "p2sh-p2wpkh":
+        spk, sc = b"\xa9\x14" + txref.h160(b"\x00\x14" + h20) + b"\x87", p2pkh
+    elif kind == "p2wsh-ms":
+        spk, sc = b"\x00\x20" + txref.sha256(ms), ms
+    else:
+        spk, sc = b"\xa9\x14" + txref.h160(b"\x00\x20" + txref.sha256(ms)) + b"\x87", ms
+    tx["ins"][idx].update(script=b"", witness=[])
+    spent[idx] = (amt, spk)
+    legacy = kind in ("p2pkh", "p2sh-ms")
+    ref = (lambda ht: txref.sighash_legacy(tx, idx, sc, ht)) if legacy else (lambda ht: txref.sighash_bip143(tx, idx, sc, amt, ht))
+    return tx, spent, idx, ms, h20, ref
+
+
+def route_place(ltx, idx, kind, sigs, secs, ms, h20):
+    """finalize input idx with the library's own finalisers"""
+    from buidl.script import RedeemScript, WitnessScript
+
+    ti = ltx.tx_ins[idx]
+    if kind == "p2pkh":
+        ti.finalize_p2pkh(sigs[0], secs[0])
+    elif kind == "p2wpkh":
+        ti.finalize_p2wpkh(sigs[0], secs[0])
+    elif kind == "p2sh-p2wpkh":
+        ti.finalize_p2wpkh(sigs[0], secs[0], RedeemScript.convert(b"\x00\x14" + h20))
+    elif kind in ("p2sh-ms", "p2sh"):
+        ti.finalize_p2sh_multisig(sigs, RedeemScript.convert(ms))
+    elif kind in ("p2wsh-ms", "p2wsh"):
+        ti.finalize_p2wsh_multisig(sigs, WitnessScript.convert(ms))
+    else:
+        ti.finalize_p2sh_p2wsh_multisig(sigs, WitnessScript.convert(ms))
+
+
+def run_routes(case):
+    from buidl.ecc import PrivateKey, S256Point, Signature
+    from buidl.script import RedeemScript, WitnessScript
+    from buidl.witness import Witness
+
+    res = Res()
+    C = ec.SECP
+    seed = case["seed"]
+    ds, secs, xs = route_keys(seed)
+    vc = {"engine": "routes", "case": case}
+    r = case["r"]
+
+    def expect(fp, got, want, key, what):
+        if got != want:
+            res.violation(fp, vc, got, want, what)
+        else:
+            res.ok(f"{r}:{'accepted' if want else 'refused'}" if isinstance(want, bool) else f"{r}:ok", nontrivial=key)
+
+    if r in ("single", "get_sig"):
+        kind = case["kind"]
+        tx, spent, idx, ms, h20, ref = route_single_setup(kind, case["shape"], seed)
+        legacy = kind in ("p2pkh", "p2sh-ms")
+        rs = {"p2sh-ms": ms, "p2sh-p2wpkh": b"\x00\x14" + h20, "p2sh-p2wsh-ms": b"\x00\x20" + txref.sha256(ms)}.get(kind)
+        ws = ms if "wsh" in kind else None
+        conv = lambda cls, b: cls.convert(b) if b is not None else None
+        if r == "get_sig":
+            ltx = build_lib(tx, spent)
+            if legacy:
+                sig = attempt(lambda: ltx.get_sig_legacy(idx, PrivateKey(ds[0]), redeem_script=conv(RedeemScript, rs)))
+            else:
+                sig = attempt(lambda: ltx.get_sig_segwit(idx, PrivateKey(ds[0]), redeem_script=conv(RedeemScript, rs), witness_script=conv(WitnessScript, ws)))
+            good = False
+            if isinstance(sig, bytes) and len(sig) > 8 and sig[-1] == 1:
+                rsv = ec.der_parse_strict(sig[:-1])
+                good = bool(rsv) and C.ecdsa_verify(C.mulg(ds[0]), int.from_bytes(ref(1), "big"), rsv[0], rsv[1])
+            expect(f"C05/routes/get_sig/{kind}", good, True, (kind, tuple(case["shape"])), "the signature returned by get_sig_legacy/get_sig_segwit is not a SIGHASH_ALL signature over the reference digest")
+            return res
+        ht = case["ht"]
+        d_ref = ref(ht)
+        other = LEGACY_HTS[(LEGACY_HTS.index(ht) + 1) % 6]
+        d_other = ref(other)
+        for label, digest, want in (("reference-digest", d_ref, True), ("digest-of-another-hash-type", d_other, False)):
+            if not want and d_other == d_ref:
+                res.skip("neighbouring hash type has the same digest (SINGLE without output)")
+                continue
+            sig = _ecdsa(ds[0], digest, ht)
+            ltx = build_lib(tx, spent)
+            sobj = Signature.parse(sig[:-1])
+            pt = S256Point.parse(secs[0])
+            if legacy:
+                got = attempt(lambda: ltx.check_sig_legacy(idx, pt, sobj, conv(RedeemScript, rs), ht))
+            else:
+                got = attempt(lambda: ltx.check_sig_segwit(idx, pt, sobj, conv(RedeemScript, rs), conv(WitnessScript, ws), ht))
+            verdict = "rejects-reference-digest" if want else "accepts-other-digest"
+            expect(f"C05/routes/check_sig/{algo_of(kind)}/{verdict}", _truth(got), want, ("cs", kind, tuple(case["shape"]), ht, label), f"check_sig_* with a signature over the {label} (hash type {ht:#x})")
+            ltx = build_lib(tx, spent)
+            attempt(route_place, ltx, idx, kind, [sig], secs, ms, h20)
+            got = attempt(ltx.verify_input, idx)
+            expect(f"C05/routes/verify_input/{kind}/{verdict}", _truth(got), want, ("vi", kind, tuple(case["shape"]), ht, label), f"verify_input with a signature over the {label}, sighash byte {ht:#x}")
+        return res
+
+    if r == "multisig-mixed":
+        nin, nout, idx, variant = case["shape"]
+        m, n = case["m"], case["n"]
+        carrier = case["carrier"]
+        ms = bytes([0x50 + m]) + b"".join(txref.push(s) for s in secs[:n]) + bytes([0x50 + n]) + b"\xae"
+        tx, spent = make_abstract(nin, nout, idx, "p2pkh", None, variant)
+        amt = spent[idx][0]
+        tx["ins"][idx].update(script=b"", witness=[])
+        if carrier == "p2sh":
+            spent[idx] = (amt, b"\xa9\x14" + txref.h160(ms) + b"\x87")
+            ref = lambda ht: txref.sighash_legacy(tx, idx, ms, ht)
+        elif carrier == "p2wsh":
+            spent[idx] = (amt, b"\x00\x20" + txref.sha256(ms))
+            ref = lambda ht: txref.sighash_bip143(tx, idx, ms, amt, ht)
+        else:
+            spent[idx] = (amt, b"\xa9\x14" + txref.h160(b"\x00\x20" + txref.sha256(ms)) + b"\x87")
+            ref = lambda ht: txref.sighash_bip143(tx, idx, ms, amt, ht)
+        ha, hb = case["hts"]
+        signers = [0, n - 1] if m == 2 else [0, 1, 2]  # in key order, as CHECKMULTISIG demands
+        hts = [ha, hb] if m == 2 else [ha, hb, ha]
+        own = [_ecdsa(ds[k], ref(h), h) for k, h in zip(signers, hts)]
+        ltx = build_lib(tx, spent)
+        attempt(route_place, ltx, idx, carrier, own, secs, ms, None)
+        got = attempt(ltx.verify_input, idx)
+        expect("C05/routes/multisig-mixed-hashtypes/rejects-reference-digests", _truth(got), True, ("mm", carrier, m, n, ha, hb, tuple(case["shape"])), f"{m}-of-{n} CHECKMULTISIG whose signatures carry the sighash bytes {[hex(h) for h in hts]}, each made over the reference digest of its own byte")
+        if ref(ha) != ref(hb):
+            # the first signature is made over the digest of the OTHER signature's hash type, the second likewise
+            # (quick: the first signature only; the ordered pair (hb, ha) crosses the other one)
+            for pos in ((0,) if case["tier"] == "quick" else (0, 1)):
+                crossed = list(own)
+                crossed[pos] = _ecdsa(ds[signers[pos]], ref(hts[1 - pos]), hts[pos])
+                ltx = build_lib(tx, spent)
+                attempt(route_place, ltx, idx, carrier, crossed, secs, ms, None)
+                got = attempt(ltx.verify_input, idx)
+                expect("C05/routes/multisig-mixed-hashtypes/accepts-digest-of-other-signatures-hashtype", _truth(got), False, ("mx", carrier, m, n, ha, hb, pos, tuple(case["shape"])), f"signature {pos} (sighash byte {hts[pos]:#x}) was made over the digest for {hts[1 - pos]:#x}")
+        elif ha != hb:
+            res.skip("both hash types have the same digest (SINGLE without output)")
+        return res
+
+    # ---- taproot
+    nin, nout, idx, variant = case["shape"]
+    ht = case["ht"]
+    tx, spent = make_abstract(nin, nout, idx, "p2pkh", None, variant)
+    amt = spent[idx][0]
+    if r == "tap-key":
+        x = xs[2]
+        Q, parity, t = C.taproot_tweak(int.from_bytes(x, "big"))
+        P = C.mulg(ds[2])
+        dd = ds[2] if C.has_even_y(P) else C.n - ds[2]
+        dq = (dd + t) % C.n  # secret of the output key
+        spk = b"\x51\x20" + ec.b32(Q[0])
+        spent[idx] = (amt, spk)
+        tx["ins"][idx].update(script=b"", witness=[])
+        d0 = txref.sighash_bip341(tx, idx, spent, ht)
+        key = ("tk", tuple(case["shape"]), ht)
+        # signing routes
+        ltx = build_lib(tx, spent)
+        sig = attempt(lambda: ltx.get_sig_taproot(idx, PrivateKey(dq), hash_type=ht))
+        if d0 is None:
+            ok = not (isinstance(sig, bytes) and len(sig) in (64, 65))
+            expect("C05/routes/get_sig_taproot/undefined-digest-signed", ok, True, key + ("gs",), "get_sig_taproot returned a signature although the digest is undefined (SINGLE without output)")
+            ltx = build_lib(tx, spent)
+            got = attempt(lambda: ltx.sign_p2tr_keypath(idx, PrivateKey(dq), hash_type=ht))
+            expect("C05/routes/sign_p2tr_keypath/undefined-digest-signed", _truth(got), False, key + ("sp",), "sign_p2tr_keypath reports a valid spend although the digest is undefined")
+            return res
+        good = isinstance(sig, bytes) and len(sig) == (65 if ht else 64) and (not ht or sig[-1] == ht) and C.schnorr_verify(ec.b32(Q[0]), d0, sig[:64])
+        expect("C05/routes/get_sig_taproot/not-over-reference-digest", good, True, key + ("gs",), f"get_sig_taproot(hash_type={ht:#x}) is not a BIP340 signature over the reference BIP341 digest")
+        ltx = build_lib(tx, spent)
+        got = attempt(lambda: ltx.sign_p2tr_keypath(idx, PrivateKey(dq), hash_type=ht))
+        expect("C05/routes/sign_p2tr_keypath/own-signature-not-valid", _truth(got), True, key + ("sp",), "sign_p2tr_keypath does not report a valid spend")
+        other = TAP_HTS[(TAP_HTS.index(ht) + 1) % 7]
+        d_other = txref.sighash_bip341(tx, idx, spent, other)
+        txa = dict(tx, ins=[dict(i) for i in tx["ins"]])
+        txa["ins"][idx]["witness"] = [SIG64, ANNEX]
+        d_annex = txref.sighash_bip341(txa, idx, spent, ht, annex=ANNEX)
+        for label, digest, wit_tail, want in (
+            ("reference-digest", d0, [], True),
+            ("digest-of-another-hash-type", d_other, [], False),
+            ("digest-without-annex", d0, [ANNEX], False),
+            ("reference-digest-with-annex", d_annex, [ANNEX], True),
+        ):
+            if digest is None or (not want and digest == (d_annex if wit_tail else d0)):
+                res.skip("comparison digest undefined")
+                continue
+            ltx = build_lib(tx, spent)
+            ltx.tx_ins[idx].witness = Witness([_schnorr(dq, digest, ht)] + wit_tail)
+            got = attempt(ltx.verify_input, idx)
+            verdict = "rejects-reference-digest" if want else "accepts-other-digest"
+            expect(f"C05/routes/verify_input/p2tr-key/{verdict}", _truth(got), want, key + (label,), f"key path spend signed over the {label}, sighash byte {ht:#x}")
+        return res
+
+    # tap-script
+    tree = route_tree(seed)
+    di, ix, (Q, parity, t) = tap_internal(seed, case["parity"])
+    leaf = tree[case["leaf"]]
+    sibling = tree["hb"] if case["leaf"] == "a" else tree["ha"]
+    cb = bytes([0xC0 | parity]) + ec.b32(ix) + sibling
+    annex = ANNEX if case["annex"] else None
+    signers = [0] if case["leaf"] == "a" else [1, 0]  # witness order: the signature consumed last comes first
+    tail = [leaf, cb] + ([annex] if annex else [])
+    spent[idx] = (amt, b"\x51\x20" + ec.b32(Q[0]))
+    tx["ins"][idx].update(script=b"", witness=[SIG64] * len(signers) + tail)
+    d_leaf = txref.sighash_bip341(tx, idx, spent, ht, annex=annex, leaf_hash=txref.tapleaf_hash(leaf))
+    d_key = txref.sighash_bip341(tx, idx, spent, ht, annex=annex)
+    d_sib = txref.sighash_bip341(tx, idx, spent, ht, annex=annex, leaf_hash=sibling)
+    d_flip = txref.sighash_bip341(tx, idx, spent, ht, annex=None if annex else ANNEX, leaf_hash=txref.tapleaf_hash(leaf))
+    key = ("ts", case["leaf"], case["parity"], case["annex"], tuple(case["shape"]), ht)
+    if d_leaf is None:
+        ltx = build_lib(tx, spent)
+        ltx.tx_ins[idx].witness = Witness([_schnorr(ds[k], b"\x00" * 32, ht) for k in signers] + tail)
+        got = attempt(ltx.verify_input, idx)
+        expect("C05/routes/verify_input/p2tr-script/accepts-undefined-digest", _truth(got), False, key, "script path spend accepted although the digest is undefined (SINGLE without output)")
+        return res
+    for label, digest, want in (("reference-digest", d_leaf, True), ("key-path-digest", d_key, False), ("digest-of-the-sibling-leaf", d_sib, False), ("digest-with-annex-presence-flipped", d_flip, False)):
+        if case["tier"] == "quick" and case["leaf"] == "b" and label in ("digest-of-the-sibling-leaf", "digest-with-annex-presence-flipped"):
+            continue
+        ltx = build_lib(tx, spent)
+        ltx.tx_ins[idx].witness = Witness([_schnorr(ds[k], digest, ht) for k in signers] + tail)
+        got = attempt(ltx.verify_input, idx)
+        verdict = "rejects-reference-digest" if want else "accepts-other-digest"
+        expect(f"C05/routes/verify_input/p2tr-script/{verdict}", _truth(got), want, key + (label,), f"script path spend (leaf {case['leaf']}, control-block parity {parity}, annex {bool(annex)}) signed over the {label}, sighash byte {ht:#x}")
+    return res
+
+
+# ------------------------------------------------------------------ E2 fetch-history: spent outputs looked up by outpoint
+MS2 = bytes([0x52]) + txref.push(PK1) + txref.push(PK2) + bytes([0x52, 0xAE])  # 2-of-2, the alternative script code
+TAPSCRIPT2 = txref.push(bytes(range(10, 42))) + b"\xad\x51"
+OUT0_RAW = b"\x76\xa9\x4c\x14" + H20 + b"\x88\xac"  # P2PKH-shaped, the hash pushed with OP_PUSHDATA1: kept as raw bytes by Script.parse
+OUT0_EDITS = [bytes(range(201, 221)), bytes(range(221, 241))]
+
+
+def _p2sh(script):
+    return b"\xa9\x14" + txref.h160(script) + b"\x87"
+
+
+def fh_funding():
+    """name -> abstract funding tx (legacy wire form) with two outputs: [variant A, variant B] of the same kind"""
+
+    def fund(tag, outs):
+        return {"version": 1, "locktime": 0, "segwit": False, "ins": [{"prev": bytes([tag]) * 32, "index": 0, "script": b"\x51", "seq": 0xFFFFFFFF, "witness": []}], "outs": [{"amount": a, "script": s} for a, s in outs]}
+
+    return {
+        "F0": fund(1, [(1000, _p2sh(MS)), (2000, _p2sh(MS2))]),
+        "F1": fund(2, [(2**40, _p2sh(b"\x00\x20" + txref.sha256(MS))), (2**41 + 5, _p2sh(b"\x00\x20" + txref.sha256(MS2)))]),
+        "F2": fund(3, [(7, b"\x51\x20" + XONLY), (9, b"\x51\x20" + XONLY2)]),
+        "F2b": fund(4, [(11, b"\x51\x20" + XONLY2), (13, b"\x51\x20" + XONLY)]),
+        "F3": fund(5, [(55, b"\x76\xa9\x14" + H20 + b"\x88\xac"), (66, b"\x76\xa9\x14" + H20B + b"\x88\xac")]),
+        "F4": fund(6, [(77777, b"\x00\x14" + H20), (88888, b"\x00\x14" + H20B)]),
+    }
+
+
+_FH_IDS = {}
+
+
+def fh_ids():
+    if not _FH_IDS:
+        _FH_IDS.update({name: bytes.fromhex(txref.txid(f)) for name, f in fh_funding().items()})
+    return _FH_IDS
+
+
+def fh_base():
+    ids = fh_ids()
+    ins = [
+        {"prev": ids["F0"], "index": 0, "script": b"\x00" + txref.push(MS), "seq": 0xFFFFFFFE, "witness": []},  # P2SH multisig
+        {"prev": ids["F1"], "index": 0, "script": txref.push(b"\x00\x20" + txref.sha256(MS)), "seq": 5, "witness": [b"", b"\x30\x02", MS]},  # P2SH-P2WSH
+        {"prev": ids["F2"], "index": 0, "script": b"", "seq": 0, "witness": [SIG64, TAPSCRIPT, CB]},  # P2TR script path
+        {"prev": ids["F3"], "index": 0, "script": b"", "seq": 0xFFFFFFFF, "witness": []},  # P2PKH (script code = spent scriptPubKey)
+    ]
+    outs = [{"amount": 5000, "script": OUT0_RAW}, {"amount": 1, "script": b"\x00\x14" + H20}, {"amount": 0, "script": b"\x6a\x02hi"}]
+    return {"version": 2, "locktime": 0, "segwit": True, "ins": ins, "outs": outs, "_out0_edit": None}
+
+
+FH_QUERIES = [(0, 1), (0, 0x83), (1, 1), (1, 0x82), (2, 0), (2, 0x83), (3, 1), (3, 0x83), (4, 1), (4, 0x83)]
+FH_EDITS = ["in0.prev_index", "in1.prev_index", "in3.prev_index", "in2.prev_tx", "in4.add-remove", "in0.redeem-inplace", "in1.wscript-inplace", "in2.tapscript-inplace", "in2.controlblock-inplace", "in2.annex-new-witness", "out0.commands-inplace", "out1.script-replace", "in1.replace-txin"]
+FH_KIND = ["legacy", "bip143", "bip341", "legacy", "bip143"]
+FH_EDIT_CLASS = {"in0.prev_index": "outpoint-edit", "in1.prev_index": "outpoint-edit", "in3.prev_index": "outpoint-edit", "in2.prev_tx": "outpoint-edit", "out0.commands-inplace": "inplace-commands-edit-of-raw-script"}
+
+
+def fh_spent(tx):
+    look = {i: f for i, f in zip(fh_ids().values(), fh_funding().values())}
+    return [(look[i["prev"]]["outs"][i["index"]]["amount"], look[i["prev"]]["outs"][i["index"]]["script"]) for i in tx["ins"]]
+
+
+def fh_ref(tx, q):
+    i, ht = q
+    if i >= len(tx["ins"]):
+        return None
+    spent = fh_spent(tx)
+    inp = tx["ins"][i]
+    if i == 0:
+        items = interp_pushes(inp["script"])
+        return txref.sighash_legacy(tx, 0, items[-1], ht)
+    if i == 1:
+        return txref.sighash_bip143(tx, 1, inp["witness"][-1], spent[1][0], ht)
+    if i == 2:
+        w = list(inp["witness"])
+        annex = w.pop() if len(w) >= 2 and w[-1] and w[-1][0] == 0x50 else None
+        return txref.sighash_bip341(tx, 2, spent, ht, annex=annex, leaf_hash=txref.tapleaf_hash(w[-2], w[-1][0] & 0xFE))
+    if i == 3:
+        return txref.sighash_legacy(tx, 3, spent[3][1], ht)
+    return txref.sighash_bip143(tx, 4, b"\x76\xa9\x14" + spent[4][1][2:] + b"\x88\xac", spent[4][0], ht)
+
+
+def interp_pushes(script):
+    """data items of a push-only script made of OP_0 and direct / PUSHDATA1 / PUSHDATA2 pushes (what this engine builds)"""
+    out, p = [], 0
+    while p < len(script):
+        op = script[p]
+        p += 1
+        if op == 0:
+            out.append(b"")
+            continue
+        if op == 0x4C:
+            n, p = script[p], p + 1
+        elif op == 0x4D:
+            n, p = int.from_bytes(script[p : p + 2], "little"), p + 2
+        else:
+            assert 1 <= op <= 75
+            n = op
+        out.append(script[p : p + n])
+        p += n
+    return out
+
+
+def fh_edit(tx, ltx, e):
+    """apply edit e to the abstract tx and to the library object"""
+    from io import BytesIO
+    from buidl.script import Script
+    from buidl.tx import TxIn
+    from buidl.witness import Witness
+
+    ids = fh_ids()
+    if e.endswith(".prev_index"):
+        k = int(e[2])
+        if k < len(tx["ins"]):
+            tx["ins"][k]["index"] ^= 1
+            ltx.tx_ins[k].prev_index ^= 1
+    elif e == "in2.prev_tx":
+        new = ids["F2b"] if tx["ins"][2]["prev"] == ids["F2"] else ids["F2"]
+        tx["ins"][2]["prev"] = new
+        ltx.tx_ins[2].prev_tx = new
+    elif e == "in4.add-remove":
+        if len(tx["ins"]) == 4:
+            tx["ins"].append({"prev": ids["F4"], "index": 1, "script": b"", "seq": 0xFFFFFFFD, "witness": [b"\x30\x01", PK1]})
+            ti = TxIn(ids["F4"], 1, Script(), 0xFFFFFFFD)
+            ti.witness = Witness([b"\x30\x01", PK1])
+            ltx.tx_ins.append(ti)
+        else:
+            tx["ins"].pop()
+            ltx.tx_ins.pop()
+    elif e == "in0.redeem-inplace":
+        cur = interp_pushes(tx["ins"][0]["script"])[-1]
+        new = MS2 if cur == MS else MS
+        tx["ins"][0]["script"] = b"\x00" + txref.push(new)
+        ltx.tx_ins[0].script_sig.commands[-1] = new
+    elif e == "in1.wscript-inplace":
+        w = tx["ins"][1]["witness"]
+        w[-1] = MS2 if w[-1] == MS else MS
+        ltx.tx_ins[1].witness.items[-1] = w[-1]
+    elif e == "in2.tapscript-inplace":
+        w = tx["ins"][2]["witness"]
+        w[1] = TAPSCRIPT2 if w[1] == TAPSCRIPT else TAPSCRIPT
+        ltx.tx_ins[2].witness.items[1] = w[1]
+    elif e == "in2.controlblock-inplace":
+        w = tx["ins"][2]["witness"]
+        w[2] = CB1 if w[2] == CB else CB
+        ltx.tx_ins[2].witness.items[2] = w[2]
+    elif e == "in2.annex-new-witness":
+        w = tx["ins"][2]["witness"]
+        if len(w) == 4:
+            w.pop()
+        else:
+            w.append(ANNEX)
+        ltx.tx_ins[2].witness = Witness(list(w))
+    elif e == "out0.commands-inplace":
+        # never back to the parsed value: whether the original bytes come back with it is not part of the statement
+        k = 0 if tx["_out0_edit"] != 0 else 1
+        tx["_out0_edit"] = k
+        tx["outs"][0]["script"] = txref.script_from_items([0x76, 0xA9, OUT0_EDITS[k], 0x88, 0xAC])
+        ltx.tx_outs[0].script_pubkey.commands[2] = OUT0_EDITS[k]
+    elif e == "out1.script-replace":
+        s = tx["outs"][1]["script"]
+        new = b"\x51" if s != b"\x51" else b"\x00\x14" + H20
+        tx["outs"][1]["script"] = new
+        ltx.tx_outs[1].script_pubkey = Script.parse(BytesIO(txref.varbytes(new)))
+    elif e == "in1.replace-txin":
+        a = tx["ins"][1]
+        ti = TxIn(a["prev"], a["index"], Script.parse(BytesIO(txref.varbytes(a["script"]))), a["seq"])
+        ti.witness = Witness(list(a["witness"]))
+        ltx.tx_ins[1] = ti
+    else:
+        raise ValueError(e)
+
+
+def fh_replay(hist):
+    """fresh cache, fresh object (Tx.parse of the segwit wire form, testnet), events replayed.
+    -> (ltx, abstract tx, observations: None for edits, (library digest, reference digest) for queries)"""
+    import copy
+    from io import BytesIO
+    import buidl.tx as btx
+
+    def no_network(*a, **k):
+        raise RuntimeError("network access attempted: outpoint not in TxFetcher.cache")
+
+    old_cache, old_urlopen = btx.TxFetcher.cache, btx.urlopen
+    btx.urlopen = no_network
+    try:
+        # the way TxFetcher.load_cache fills the cache: id (hex) -> library Tx parsed from the raw transaction
+        btx.TxFetcher.cache = {txref.txid(f): btx.Tx.parse(BytesIO(txref.ser_tx(f))) for f in fh_funding().values()}
+        tx = copy.deepcopy(fh_base())
+        ltx = btx.Tx.parse(BytesIO(txref.ser_tx(tx)), network="testnet")
+        obs = []
+        for ev in hist:
+            if ev[0] == "q":
+                q = tuple(ev[1])
+                obs.append((norm(attempt(ltx.sig_hash, q[0], q[1])), fh_ref(tx, q)))
+            else:
+                fh_edit(tx, ltx, ev[1])
+                obs.append(None)
+        return ltx, tx, obs, fh_canon(ltx, tx)
+    finally:
+        btx.TxFetcher.cache, btx.urlopen = old_cache, old_urlopen
+
+
+def fh_canon(ltx, tx):
+    """everything a later query can read: content, what each TxIn remembers about its spent output, memo fields of the
+    Tx, and whether scripts still carry parsed bytes"""
+
+    def memo(ti, name):
+        v = ti.__dict__.get(name)
+        if isinstance(v, tuple):  # (outpoint, value)
+            tag, v = repr(v[0]), v[1]
+        else:
+            tag = ""
+        if hasattr(v, "raw_serialize"):
+            v = attempt(v.raw_serialize)
+        return (tag, repr(v))
+
+    per_in = tuple((memo(ti, "_value"), memo(ti, "_script_pubkey"), bool(getattr(ti.script_sig, "raw", None))) for ti in ltx.tx_ins)
+    outs = tuple(bool(getattr(o.script_pubkey, "raw", None)) for o in ltx.tx_outs)
+    return (txref.ser_tx({k: v for k, v in tx.items() if not k.startswith("_")}), tx["_out0_edit"], per_in, outs, tuple(repr(getattr(ltx, n, None)) for n in MEMO))
+
+
+def fh_events():
+    return [["q", list(q)] for q in FH_QUERIES] + [["e", e] for e in FH_EDITS]
+
+
+def gen_fetch_history(tier, seed):
+    depth = 3 if tier == "quick" else 4
+    return [{"first": ev, "depth": depth} for ev in fh_events()]
+
+
+def fh_classify(hist):
+    """name the edit without which the last query agrees with the reference (first such edit), and whether an earlier
+    query is needed (stale state) or not (wrong on a fresh object with the same edits)"""
+    last = hist[-1]
+    edits = [h for h in hist if h[0] == "e"]
+    fresh = fh_replay(edits + [last])[2][-1]
+    mode = "stale-after" if fresh[0] == fresh[1] else "wrong-after"
+    blamed, weak = None, None
+    for name in dict.fromkeys(h[1] for h in edits):
+        reduced = [h for h in hist if not (h[0] == "e" and h[1] == name)]
+        o = fh_replay(reduced)[2][-1]
+        if o[0] == o[1] and o[1] is not None:
+            blamed = name
+            break
+        if o[0] == o[1] and weak is None:
+            weak = name  # agrees only because the queried input no longer exists
+    blamed = blamed or weak
+    if blamed is None:
+        cls = "no-edit" if not edits else "unattributed"
+    else:
+        cls = FH_EDIT_CLASS.get(blamed, blamed.split(".", 1)[1])
+    return f"{mode}/{cls}"
+
+
+def run_fetch_history(case):
+    import collections
+
+    res = Res()
+    events = fh_events()
+    depth = case["depth"]
+    seen = set()
+    frontier = collections.deque([[case["first"]]])
+    if case.get("replay"):
+        frontier = collections.deque([case["replay"]])
+        depth = 0
+    while frontier:
+        hist = frontier.popleft()
+        ltx, tx, obs, key = fh_replay(hist)
+        res.transitions += 1
+        last = obs[-1]
+        if last is not None and last[0] != last[1]:
+            q = hist[-1][1]
+            cls = fh_classify(hist)
+            res.violation(
+                f"C05/fetch-history/{cls}/{FH_KIND[q[0]]}",
+                {"engine": "fetch-history", "case": dict({k: v for k, v in case.items() if k != "replay"}, replay=hist)},
+                last[0],
+                last[1],
+                f"Tx.sig_hash{tuple(q)} after history {hist[:-1]} differs from the reference on the current transaction and the outputs its current outpoints spend (TxFetcher.cache)",
+            )
+            continue
+        if key in seen:
+            continue
+        seen.add(key)
+        res.states += 1
+        if last is not None:
+            res.ok("query==ref" + ("(undefined->refused)" if last[1] is None else ""), nontrivial=repr(hist) if any(h[0] == "e" for h in hist[:-1]) else None, sample={"history": hist} if len(hist) == 3 and hist[0][0] == "q" and hist[1][0] == "e" else None)
+        if len(hist) < depth:
+            for ev in events:
+                frontier.append(hist + [ev])
+    return res
+
+
 def engines(tier, seed):
     return [
-        Engine("digest", gen_digest, run_digest, kind="E1", rule="transactions with 1..4 inputs x 0..4 outputs (thorough 6x6) x every input index x 8 spent-output kinds x hash types {1,2,3,81,82,83} (+0 for taproot) x taproot witness shapes (key path: [sig], [sig starting 0x50], [sig, annex], []; script path: with/without args and annex): Tx.sig_hash (dispatch) and the direct sig_hash_legacy/bip143/bip341 == reference digest (undefined digests must be refused)"),
+        Engine("digest", gen_digest, run_digest, kind="E1", rule="transactions with 1..4 inputs x 0..4 outputs (thorough 6x6) x every input index x 8 spent-output kinds x hash types {1,2,3,81,82,83} (+0 for taproot; +0 and 0x80 for the original algorithm and BIP143, which define them unambiguously) x taproot witness shapes (key path: [sig], [sig starting 0x50], [sig, annex], []; script path: with/without args and annex): Tx.sig_hash (dispatch) and the direct sig_hash_legacy/bip143/bip341 == reference digest (undefined digests must be refused)"),
         Engine("history", gen_history, run_history, kind="E2", rule="explicit-state BFS over histories of <= 4 (thorough 6) events on ONE Tx object: 18 digest queries (legacy/BIP143/BIP341 x 2 inputs x 3 hash types) and 8 edits (output amount, add/remove output, sequence, locktime, outpoint, spent value, annex, version); canonical state = (wire bytes, spent data, memo fields); invariant: every query equals the reference on the current content"),
+        Engine("scripts", gen_scripts, run_scripts, kind="E1", rule="(a) 21 script codes (direct push / PUSHDATA1 / PUSHDATA2 / PUSHDATA4 of the same key, mixed, empty PUSHDATA1, 1-byte push of 01, three truncated pushes, 521-byte push, OP_0, empty script, 15-of-15 multisig (513 bytes), lengths 252 / 253 (OP_NOPs) and 65535 / 65536 (520-byte pushes padded with OP_NOPs), OP_SUCCESS80, 0xff, P2PKH) x 5 carriers (P2SH redeem script, P2WSH and P2SH-P2WSH witness script, bare scriptPubKey, tapscript leaf; tapscript also x annex length {none, 1, 253} (thorough: + 4, 252, 65536)) x both inputs of a 2-in 2-out tx x every standard hash type, through Tx.sig_hash and through the direct method; (b) 10 odd scriptPubKeys (empty, OP_RETURN, PUSHDATA1 look-alikes of P2WPKH / P2TR / P2SH, lengths 252 / 253 / 65536, truncated push) spent by ANOTHER input x 14 kind/witness shapes; (c) output scripts of 260 and 65536 bytes and a PUSHDATA1 one x 14 shapes; (d) annex lengths {1, 252, 253, 65536} x the annex-carrying taproot shapes. Oracle: reference digest over the raw bytes"),
+        Engine("fields", gen_fields, run_fields, kind="E1", rule="14 kind/witness shapes x 29 settings (each of version, locktime, sequence, prev_index, spent amount, output amount set alone to 4 extreme values: 0 / 2^31-1 / 2^31 / 2^32-1, locktime threshold 499999999 / 500000000, sequence flag bits, amounts 2^63-1 / 2^62 / 2^32-1 / 21e14; 4 tuples with all fields extreme; 1 plain) x every standard hash type x 6 ways of building the object (constructor; constructor with segwit=False on testnet; Tx.parse of the segwit wire form on mainnet / testnet / signet; Tx.parse of the legacy wire form with the witness attached afterwards): Tx.sig_hash and the direct method == reference digest; a mismatch already present for the plain constructor is reported under the field, otherwise under the builder"),
+        Engine("routes", gen_routes, run_routes, kind="E1", rule="keys: three seed-derived secrets; every signature is made by the REFERENCE curve code over the REFERENCE digest. Per tx shape (quick 2, thorough 6; half of them without an output at the input's index): (single) 6 ECDSA kinds x 6 hash types: check_sig_legacy / check_sig_segwit and verify_input (after the library finaliser) accept the signature over the reference digest and refuse one over the digest of the next hash type carrying the same sighash byte; (get_sig) get_sig_legacy / get_sig_segwit return a SIGHASH_ALL signature that the reference verifier accepts for the reference digest; (tap-key) 7 hash types: get_sig_taproot verifies under the reference BIP340 verifier for the reference BIP341 digest, sign_p2tr_keypath is True, verify_input accepts reference-digest signatures without and with annex and refuses other-hash-type and annex-less digests, undefined digests are never signed; (tap-script) real two-leaf tree (P2PK leaf, 2-of-2 CHECKSIGADD leaf) x control-block parity {0,1} x annex {no,yes} x 7 hash types: verify_input accepts signatures over the BIP342 digest of the executed leaf and refuses the key-path digest (and, for the P2PK leaf in quick / both in thorough, the sibling leaf's digest and the digest with annex presence flipped); (multisig-mixed) P2SH / P2WSH / P2SH-P2WSH m-of-n CHECKMULTISIG (quick 2-of-2; thorough + 2-of-3, 3-of-3) x all 36 ordered pairs of hash-type bytes: every signature over the digest of its own byte => True; one signature made over the digest of the other signature's hash type => False"),
+        Engine("fetch-history", gen_fetch_history, run_fetch_history, kind="E2", rule="explicit-state BFS over histories of <= 3 (thorough 4) events on ONE Tx object built by Tx.parse (testnet) whose spent outputs are served by TxFetcher.cache (six funding transactions with two outputs each; urlopen replaced by a function that raises): 10 queries Tx.sig_hash(input, hash type) on a P2SH-multisig, a P2SH-P2WSH, a P2TR script-path, a P2PKH and an appended P2WPKH input, and 13 edits (prev_index of inputs 0 / 1 / 3, prev_tx of input 2, append / remove input 4, in-place replacement of the redeem script in scriptSig.commands, of the witness script, tapscript and control block in witness.items, a new Witness object with / without annex, in-place commands edit of an output script that Script.parse kept as raw bytes, replacement of an output script object, replacement of a TxIn object); canonical state = (wire bytes, per-input remembered spent output with the outpoint it belongs to, raw-bytes flags, memo fields); invariant: every query equals the reference digest on the current transaction and the outputs its CURRENT outpoints spend; a violation is attributed to the edit whose removal from the history makes the query agree"),
     ]
